@@ -34,7 +34,8 @@ CONSTANTS
 
 def build_race(work):
     out = os.path.join(work, "rec-uci-race")
-    p = vf.run(["go", "build", "-tags", "verif", "-race", "-gcflags=all=-d=checkptr=0", "-o", out, "./cmd/rec-uci"], cwd=vf.HARNESS, env=vf.goenv(), timeout=1200, check=False)
+    modfile = ["-modfile=" + os.path.join(work, "alt.mod")] if vf.REPO != "/repo" else []
+    p = vf.run(["go", "build"] + modfile + ["-tags", "verif", "-race", "-gcflags=all=-d=checkptr=0", "-o", out, "./cmd/rec-uci"], cwd=vf.HARNESS, env=vf.goenv(), timeout=1200, check=False)
     if p.returncode != 0:
         raise vf.Infra("race build failed:\n" + p.stderr[-3000:])
     return out
